@@ -157,12 +157,45 @@ def install(extra_modules=()):
                             setattr(cls, aname, staticmethod(sim) if callable(sim) and not isinstance(sim, type) else sim)
                             found.setdefault(label, []).append("%s.%s.%s" % (modname, cname, aname))
     _installed.setdefault("_found", {}).update(found)
+    _scan_resettable()
     if "_orig" not in _ORIG:
         from eliot import _output, _errors
         _ORIG["_orig"] = True
         _ORIG["default_logger"] = _output._DEFAULT_LOGGER
         _ORIG["registry"] = dict(_errors._error_extraction.registry)
     return found
+
+
+_CACHES = []        # objects with cache_clear() (functools caches) reachable from eliot's modules
+_CONTAINERS = []    # module-level containers that were empty right after import (memo tables)
+
+
+def _scan_resettable():
+    """State that a changed implementation may keep between calls (memoisation) must not leak from one
+    simulated run into the next, or violations stop being reproducible.  Found generically: functools
+    caches, and module-level dict/list/set globals that are empty after import."""
+    del _CACHES[:]
+    del _CONTAINERS[:]
+    seen = set()
+    for modname, mod in sorted(sys.modules.items()):
+        if mod is None or not (modname == "eliot" or modname.startswith("eliot.")) or ".tests" in modname:
+            continue
+        for name, val in list(vars(mod).items()):
+            if id(val) in seen:
+                continue
+            if hasattr(val, "cache_clear") and callable(getattr(val, "cache_clear", None)):
+                seen.add(id(val))
+                _CACHES.append(val)
+            elif isinstance(val, (dict, list, set)) and not val and not name.startswith("__") \
+                    and getattr(mod, "__all__", None) is not val:
+                seen.add(id(val))
+                _CONTAINERS.append(val)
+            elif isinstance(val, type) and getattr(val, "__module__", None) == modname:
+                for an, av in list(vars(val).items()):
+                    f = getattr(av, "__func__", av)
+                    if hasattr(f, "cache_clear") and id(f) not in seen:
+                        seen.add(id(f))
+                        _CACHES.append(f)
 
 
 def require_seams(*names):
@@ -190,6 +223,16 @@ def begin_run(seed, clock=None):
     ee.__init__()
     for _cls, _fn in _ORIG["registry"].items():
         ee.register_exception_extractor(_cls, _fn)
+    for c in _CACHES:
+        try:
+            c.cache_clear()
+        except Exception:  # noqa
+            pass
+    for c in _CONTAINERS:
+        try:
+            c.clear()
+        except Exception:  # noqa
+            pass
     # a ContextVar needs no reset (every run has fresh contexts); a mutant that
     # keeps the context in a global does, or one run's leak poisons the next
     try:
